@@ -78,12 +78,14 @@ pub fn run_c11(cx: &mut Cx) {
     let n_calls = 6 + cx.ch.choose("gen_calls", 8);
     for _ in 0..n_calls {
         let s = Suite::from_idx(cx.ch.choose("g_suite", 2));
-        let api_kind = cx.ch.choose("g_api", 4) as u8;
+        let api_kind = cx.ch.choose("g_api", 7) as u8;
         let count = match cx.ch.weighted("g_count", &[6, 3, 1]) { 0 => cx.ch.choose("g_n", 9) as usize, 1 => 9 + cx.ch.choose("g_n2", 30) as usize, _ => 200 + cx.ch.choose("g_n3", 80) as usize };
         let node = if cx.ch.chance("g_at_b", 1, 2) { b } else { a };
         let seen2 = seen.clone();
         cx.step(node, "create_generators", StepOpts::default(), move || {
-            let api: Option<Vec<u8>> = match api_kind { 0 => Some(api::api_id(s, false).to_vec()), 1 => Some(api::api_id(s, true).to_vec()), 2 => Some([b"BLIND_", api::api_id(s, true)].concat()), _ => None };
+            // kinds 4..6: long custom api_ids that share their first 240 octets
+            let long = |tail: &[u8]| { let mut v = vec![0x41u8; 240]; v.extend_from_slice(tail); v };
+            let api: Option<Vec<u8>> = match api_kind { 0 => Some(api::api_id(s, false).to_vec()), 1 => Some(api::api_id(s, true).to_vec()), 2 => Some([b"BLIND_", api::api_id(s, true)].concat()), 3 => None, 4 => Some(long(b"-one")), 5 => Some(long(b"-two")), _ => Some(long(b"")) };
             api::generators(s, count, api.as_deref())
         }, move |cx, st| {
             let Ok(g) = st.out else { cx.log("create_generators crashed (C08's business)".into()); return; };
@@ -111,6 +113,27 @@ pub fn run_c11(cx: &mut Cx) {
                 for set in sets { if g.iter().any(|p| set.contains(p)) { cx.violation("C11", "generators/shared-across-api-ids".into(), format!("{key} shares a point with {}/api{}", s2.name(), a2)); } }
             }
             sn.entry((s, api_kind)).or_default().push(g);
+        });
+    }
+    // the merged generator list the blind interface builds (signer generators ++ blind generators),
+    // for present and absent api_id: no repeated point, no identity, no P1
+    for api_present in [true, false] {
+        let s = Suite::from_idx(cx.ch.choose("pp_suite", 2));
+        let (n, m) = (1 + cx.ch.choose("pp_n", 5) as usize, 1 + cx.ch.choose("pp_m", 5) as usize);
+        let node = if cx.ch.chance("pp_at_b", 1, 2) { b } else { a };
+        cx.step(node, "prepare_parameters", StepOpts::default(), move || api::merged_blind_generators(s, n, m, api_present), move |cx, st| {
+            cx.eval(&[b"pp", s.name().as_bytes(), &[api_present as u8, n as u8, m as u8]], true);
+            let Ok(Ok(g)) = st.out else { cx.log("prepare_parameters failed".into()); return; };
+            use group::Curve;
+            let p1 = rm::p1(s).to_affine().to_compressed();
+            let mut id = [0u8; 48]; id[0] = 0xc0;
+            let key = format!("{}/prepare_parameters(api_id {})", s.name(), if api_present { "present" } else { "absent" });
+            if g.len() != n + m { cx.violation("C11", "generators/count".into(), format!("{key}: {} points for {n}+{m}", g.len())); }
+            for (i, p) in g.iter().enumerate() {
+                if *p == id { cx.violation("C11", "generators/identity".into(), format!("{key}: point {i} is the identity")); }
+                if *p == p1 { cx.violation("C11", "generators/P1".into(), format!("{key}: point {i} equals P1")); }
+                if g[..i].contains(p) { cx.violation("C11", "generators/interfaces-share-a-point".into(), format!("{key}: point {i} (blind part starts at {n}) repeats point {}", g[..i].iter().position(|q| q == p).unwrap())); }
+            }
         });
     }
     cx.run();
